@@ -114,6 +114,12 @@ def _gen_prog(rng, m, generic, stress):
         lp['step'], lp['shape'] = 1, [m]        # the new state leaf IS the batch array (aliasing)
       elif r < 0.2:
         lp['step'] = 2                          # the state leaf is passed through
+    if rng.random() < 0.18 and not generic:     # a leaf of a narrow / boolean dtype (restricted operations)
+      dt = rng.choice(['f16', 'bf16', 'i8', 'u8', 'bool'])
+      lp.update(dtype=dt, int=dt in ('i8', 'u8', 'bool'), init=rng.choice([0, 1]), inv=0, final=rng.choice([0, 0, 2]),
+                step=4 if dt == 'bool' and rng.random() < 0.7 else rng.choice([2, 3, 3]) if dt != 'bool' else 2,
+                d=0 if dt == 'bool' else 0.5 if dt in ('f16', 'bf16') else 1, shape=rng.choice(SHAPES))
+    lp.setdefault('dtype', 'i32' if lp['int'] else 'f32')
     leaves.append(lp)
   if stress and not any((not lp['int']) and lp['step'] == 0 and lp['inv'] for lp in leaves):
     for lp in leaves:
@@ -125,9 +131,18 @@ def _gen_prog(rng, m, generic, stress):
   return {'leaves': leaves, 'res': res}
 
 
-def _gen_leafvals(rng, lp, generic):
+def _gen_leafvals(rng, lp, generic, large=False):
   n = _size(lp['shape'])
+  dt = lp.get('dtype', 'i32' if lp['int'] else 'f32')
+  if dt == 'bool':
+    return [rng.randrange(2) for _ in range(n)]
+  if dt in ('i8', 'u8'):
+    return [rng.randrange(0, 20) for _ in range(n)]
+  if dt in ('f16', 'bf16'):
+    return [rng.choice([-2, -1.5, -1, -0.5, 0, 0.5, 1, 1.5, 2, 3]) for _ in range(n)]
   if lp['int']:
+    if large:      # beyond 2^24: a detour through float32 would be visible
+      return [rng.choice([16777217, -16777217, 16777219, 33554433 // 2]) for _ in range(n)]
     return [rng.randrange(-4, 6) for _ in range(n)]
   return [float(_dy(rng, generic)) for _ in range(n)]
 
@@ -167,12 +182,22 @@ def _profile(rng, n, kind):
 PROFILES = ['zeros', 'equal', 'ascending', 'onelong', 'random', 'random']
 
 
+FORMS = ['list', 'list', 'tuple', 'gen', 'iter', 'map']
+
+
 def _gen_run(rng, k, D, n, profile, generic=False, stress=True, zero_batch=False, dup=False):
   m = rng.choice([1, 2, 3])
   ny = rng.choice([1, 2])
   prog = _gen_prog(rng, m, generic, stress)
   leaves = prog['leaves']
+  large = (not generic) and rng.random() < 0.15 and any(lp['dtype'] == 'i32' for lp in leaves)
+  if large:
+    for lp in leaves:
+      if lp['dtype'] == 'i32':      # keep |values| far below 2^31 over 5 steps
+        lp.update(a=rng.choice([1, -1, 0]), ia=rng.choice([1, -1]), ib=rng.choice([0, 1]), fa=rng.choice([1, -1]))
   ids = rng.sample(range(100), n)          # distinct, NOT in positional order
+  if n and 0 not in ids and rng.random() < 0.5:
+    ids[rng.randrange(n)] = 0              # the falsy id: 0 / b'' / '' / () depending on idkind
   if dup and n >= 2:                       # duplicate client ids: one result per input ENTRY is expected
     for _ in range(rng.randrange(1, 3)):
       i, j = rng.sample(range(n), 2)
@@ -181,11 +206,23 @@ def _gen_run(rng, k, D, n, profile, generic=False, stress=True, zero_batch=False
   clients = []
   for cid, nb in zip(ids, counts):
     batches = [_gen_batch(rng, m, ny, generic, zero_batch and rng.random() < 0.3) for _ in range(nb)]
-    clients.append([cid, batches, [_gen_leafvals(rng, lp, generic) for lp in leaves]])
-  return {'kind': 'run', 'k': k, 'D': D, 'wsr': rng.random() < 0.7, 'jaxin': rng.random() < 0.6,
-          'lazy': rng.random() < 0.3, 'idkind': rng.choice(['int', 'int', 'bytes', 'str']),
-          'tol': 1 if generic else 0, 'prog': prog, 'shared': [_gen_leafvals(rng, lp, generic) for lp in leaves],
-          'clients': clients}
+    clients.append([cid, batches, [_gen_leafvals(rng, lp, generic, large) for lp in leaves]])
+  case = {'kind': 'run', 'k': k, 'D': D, 'wsr': rng.random() < 0.7, 'jaxin': rng.random() < 0.6,
+          'batches_form': rng.choice(FORMS), 'clients_form': rng.choice(FORMS + ['list', 'dictitems']),
+          'idkind': rng.choice(['int', 'int', 'bytes', 'str', 'tuple']),
+          'scalar_form': rng.choice(['array', 'array', 'np', 'py']),
+          'via': rng.choice(['ctx', 'ctx', 'set', 'direct', 'instance']), 'kw': rng.random() < 0.3,
+          'second': rng.choice(['repeat', 'interleave', 'pieces', 'abandon', 'disable_jit']),
+          'order': rng.sample(['jit', 'debug', 'pmap'], 3),
+          'tol': 1 if generic else 0, 'prog': prog,
+          'shared': [_gen_leafvals(rng, lp, generic, large) for lp in leaves], 'clients': clients}
+  if all(lp['final'] == 0 for lp in leaves) and rng.random() < 0.7:
+    case['default_final'] = True           # client_final omitted: the documented default `lambda _, s: s`
+  if all(lp['init'] == 0 for lp in leaves) and rng.random() < 0.8:
+    case['cin_form'] = rng.choice(['empty', 'none'])      # the program never reads the client input
+  if all(lp['init'] == 1 and lp['final'] == 0 for lp in leaves) and rng.random() < 0.8:
+    case['shared_form'] = 'none'
+  return case
 
 
 BACKENDS = [None, 'jit', 'debug', 'pmap', 10, 11]
@@ -260,6 +297,21 @@ def _gen_threads(rng, k):
   return {'kind': 'threads', 'k': k, 'nthreads': n, 'scripts': scripts, 'order': order}
 
 
+def _force(rng, case, what):
+  """Rewrites a generated case so that the program never reads the client input (init0:
+  then the input is the empty pytree () or None, and client_final may be omitted) or never
+  reads the shared input (init1: shared_input=None)."""
+  for lp in case['prog']['leaves']:
+    lp['final'] = 0
+    lp['init'] = 0 if what == 'init0' else 1
+  if what == 'init0':
+    case['cin_form'] = rng.choice(['empty', 'none'])
+  else:
+    case['shared_form'] = 'none'
+  case['default_final'] = rng.random() < 0.7
+  return case
+
+
 def _gen_cases(tier, rng):
   cases = []
   if tier == 'quick':
@@ -286,6 +338,8 @@ def _gen_cases(tier, rng):
       cases.append(_gen_run(rng, k, D, max(2, rng.randrange(1, 2 * D + 2)), 'random', zero_batch=True))
       cases.append(_gen_run(rng, k, D, rng.randrange(1, 2 * D + 2), 'random', stress=False))
       cases.append(_gen_run(rng, k, D, rng.randrange(2, 2 * D + 3), 'random', dup=True))
+      cases.append(_force(rng, _gen_run(rng, k, D, rng.randrange(1, 2 * D + 2), 'random'), 'init0'))
+      cases.append(_force(rng, _gen_run(rng, k, D, rng.randrange(1, 2 * D + 2), 'random'), 'init1'))
   ks = sorted({k for k, _ in plan})[:4]
   for i in range(nthreads):
     cases.append(_gen_threads(rng, ks[i % len(ks)]))
@@ -485,6 +539,10 @@ def _ref_client(np, prog, wsr, shared, batches, cin):
           new.append(x.copy())
         elif lp['step'] == 2:
           new.append(state[k])
+        elif lp['step'] == 3:
+          new.append(state[k] + lp['d'])
+        elif lp['step'] == 4:
+          new.append(1 - state[k])
         elif lp['int']:
           new.append(lp['a'] * state[k] + (lp['b'] * bn + lp['d']))
         else:
@@ -505,10 +563,16 @@ def _ref_client(np, prog, wsr, shared, batches, cin):
   return out, results
 
 
-def _leaf_matches(np, obs_leaf, exp, is_int, shape, tol):
-  """(values ok, dtype/shape ok)"""
-  want_dtype = 'int32' if is_int else 'float32'
-  meta = obs_leaf['dtype'] == want_dtype and list(obs_leaf['shape']) == list(shape)
+DTNAME = {'f32': 'float32', 'i32': 'int32', 'f16': 'float16', 'bf16': 'bfloat16', 'i8': 'int8', 'u8': 'uint8', 'bool': 'bool'}
+WEAK = {'float32': ('float32', 'float64'), 'int32': ('int32', 'int64')}
+
+
+def _leaf_matches(np, obs_leaf, exp, is_int, shape, tol, dtype=None, weak=False):
+  """(values ok, dtype/shape ok).  weak: the leaf was delivered as a Python scalar, whose
+  weak type legitimately stays a Python float / int (float64 / int64) when no jax op touches it."""
+  want_dtype = DTNAME[dtype] if dtype else 'int32' if is_int else 'float32'
+  ok_dt = obs_leaf['dtype'] in WEAK.get(want_dtype, ()) if weak else obs_leaf['dtype'] == want_dtype
+  meta = ok_dt and list(obs_leaf['shape']) == list(shape)
   ev = np.asarray(exp).reshape(-1).tolist()
   ov = obs_leaf['v']
   if len(ev) != len(ov):
@@ -545,13 +609,16 @@ def _oracle_run(case, obs):
   input_ids = sorted(c[0] for c in case['clients'])
   rl = leaves[prog['res']['rleaf']]
 
+  def weak(lp):
+    return case.get('scalar_form') == 'py' and list(lp['shape']) == [] and lp.get('dtype', 'f32') in ('f32', 'i32')
+
   def judge(y, exp):
     """(output ok, results count ok, results ok, dtype/shape ok) of one yield against one input entry"""
     (eout, eres), nb = exp
     ok_v, ok_m = len(y['out']) == len(leaves), True
     if ok_v:
       for k, lp in enumerate(leaves):
-        v, mt = _leaf_matches(np, y['out'][k], eout[k], lp['int'], lp['shape'], tol)
+        v, mt = _leaf_matches(np, y['out'][k], eout[k], lp['int'], lp['shape'], tol, lp.get('dtype'), weak(lp))
         ok_v, ok_m = ok_v and v, ok_m and mt
     ok_n = ok_r = True
     if wsr:
@@ -562,7 +629,7 @@ def _oracle_run(case, obs):
           if len(r) != 2:        # pytree leaves of {'leaf':..., 'r0':...} in key order
             ok_r = False
             break
-          v1, m1 = _leaf_matches(np, r[0], eres[j][1], rl['int'], rl['shape'], tol)
+          v1, m1 = _leaf_matches(np, r[0], eres[j][1], rl['int'], rl['shape'], tol, rl.get('dtype'), weak(rl))
           v2, m2 = _leaf_matches(np, r[1], eres[j][0], False, [], tol)
           ok_m = ok_m and m1 and m2
           if not (v1 and v2):
@@ -612,6 +679,15 @@ def _oracle_run(case, obs):
     if o.get('containers'):
       out.append((f'{be}-container-changed', f'{be}: the call changed a container the caller passed (length / keys / element '
                   f'identities differ after the call): {o["containers"][:4]}'))
+    if o.get('iterables'):
+      out.append((f'{be}-iterable-consumption', f'{be}: a one-shot iterable passed by the caller was not consumed exactly '
+                  f'once and completely: {o["iterables"][:3]}'))
+    if o.get('kept'):
+      out.append((f'{be}-kept-result-changed', f'{be}: results the caller kept from the first call were invalidated or '
+                  f'changed by a later call: {o["kept"][:3]}'))
+    if o.get('first_built') not in (None, 'same'):
+      out.append((f'{be}-first-built-differs', f'{be}: the function built first, called again after the other backends were '
+                  f'built from the same client functions and run, {o["first_built"]}'))
     if o.get('repeat') not in (None, 'same'):
       out.append((f'{be}-repeat-differs', f'{be}: calling again on the very same caller objects {o["repeat"]} '
                   '(the first call left the inputs in a different state)'))
@@ -686,8 +762,9 @@ def _tree(leaves):
 def _prog(prog):
   ls = []
   for lp in prog['leaves']:
-    ls.append('mk_lp %s %s %d %s %s %d %s %s %s %s %d %d %s %s' % (
-        fw.cbool(lp['int']), fw.zlist(lp['shape']), lp['init'], fw.qlit(lp['ia']), fw.qlit(lp['ib']), lp['step'], fw.qlit(lp['a']),
+    ls.append('mk_lp %s %s %d %d %s %s %d %s %s %s %s %d %d %s %s' % (
+        fw.cbool(lp['int']), fw.zlist(lp['shape']), DTYPE[DTNAME[lp.get('dtype') or ('i32' if lp['int'] else 'f32')]],
+        lp['init'], fw.qlit(lp['ia']), fw.qlit(lp['ib']), lp['step'], fw.qlit(lp['a']),
         fw.qlit(lp['b']), fw.qlit(lp['d']), fw.qlit(lp['e']), lp['inv'], lp['final'], fw.qlit(lp['fa']),
         fw.qlit(lp['fb'])))
   r = prog['res']
@@ -695,18 +772,22 @@ def _prog(prog):
                                                 r['rinv'], r['rleaf'])
 
 
-DTYPE = {'float32': 0, 'int32': 1}
+DTYPE = {'float32': 0, 'int32': 1, 'float16': 3, 'bfloat16': 4, 'int8': 5, 'uint8': 6, 'bool': 7}
+WEAK_CODE = {'float64': 0, 'int64': 1}     # a Python scalar that no jax op touched (scalar_form = 'py' only)
 
 
-def _oleaf(l):
-  return f'({DTYPE.get(l["dtype"], 2)}, {fw.zlist(l["shape"])}, {_leaf(l["v"])})'
+def _oleaf(l, weak=False):
+  code = DTYPE.get(l['dtype'], 2)
+  if weak and code == 2 and list(l['shape']) == []:
+    code = WEAK_CODE.get(l['dtype'], 2)
+  return f'({code}, {fw.zlist(l["shape"])}, {_leaf(l["v"])})'
 
 
-def _otree(leaves):
-  return '[' + '; '.join(_oleaf(l) for l in leaves) + ']'
+def _otree(leaves, weak=False):
+  return '[' + '; '.join(_oleaf(l, weak) for l in leaves) + ']'
 
 
-def _obs_results(o, wsr):
+def _obs_results(o, wsr, weak=False):
   """The yielded triples in yield order (the model compares them as a multiset); every
   leaf carries its dtype code and shape."""
   items = []
@@ -716,10 +797,10 @@ def _obs_results(o, wsr):
     oid = 'None' if y['id'] is None else f'Some {fw.zlit(y["id"])}'
     if wsr and y['res'] is not None:
       # python leaf order of {'leaf', 'r0'} is (leaf, r0); the model's result tree is [r0; leaf]
-      res = '[' + '; '.join(_otree(list(reversed(r))) for r in y['res']) + ']'
+      res = '[' + '; '.join(_otree(list(reversed(r)), weak) for r in y['res']) + ']'
     else:
       res = '[]'
-    items.append(f'({oid}, {_otree(y["out"])}, {res})')
+    items.append(f'({oid}, {_otree(y["out"], weak)}, {res})')
   return '[' + '; '.join(items) + ']'
 
 
@@ -745,10 +826,11 @@ def encode(case, obs):
     tol = '(1 # 10000)' if case['tol'] else '0'
     c = (f'CRun {_prog(case["prog"])} {fw.cbool(wsr)} {tol} {case["D"]} {_tree(case["shared"])} '
          f'[{"; ".join(cl)}]')
-    rs = [_obs_results(obs[be], wsr) for be in ('jit', 'debug', 'pmap')]
+    rs = [_obs_results(obs[be], wsr, case.get('scalar_form') == 'py') for be in ('jit', 'debug', 'pmap')]
     if any(r is None for r in rs):
       return None
-    ok = not any(obs[be]['deleted'] or obs[be]['changed'] or obs[be].get('containers') or
+    ok = not any(obs[be]['deleted'] or obs[be]['changed'] or obs[be].get('containers') or obs[be].get('iterables') or
+                 obs[be].get('kept') or obs[be].get('first_built') not in (None, 'same') or
                  obs[be].get('repeat') not in (None, 'same') for be in ('jit', 'debug', 'pmap'))
     o = f'ORun {rs[0]} {rs[1]} {rs[2]} {fw.cbool(ok)}'
     return f'({c}, {o})'
@@ -779,7 +861,13 @@ def describe(case, obs):
   counts = [len(c[1]) for c in case['clients']]
   return {'kind': 'run', 'devices': D, 'clients_vs_D': 'none' if n == 0 else 'lt' if n < D else 'multiple' if n % D == 0 else 'ragged',
           'batch_profile': 'none' if not counts else 'all-zero' if max(counts) == 0 else 'equal' if len(set(counts)) == 1 else 'unequal-with-zero' if 0 in counts else 'unequal',
-          'step_results': case['wsr'], 'jax_inputs': case['jaxin'],
+          'step_results': case['wsr'], 'jax_inputs': case['jaxin'], 'batches_form': case.get('batches_form', 'list'),
+          'clients_form': case.get('clients_form', 'list'), 'idkind': case.get('idkind', 'int'),
+          'falsy_id': any(c[0] == 0 for c in case['clients']), 'scalar_form': case.get('scalar_form', 'array'),
+          'entry_point': case.get('via', 'ctx') + ('+kw' if case.get('kw') else '') + ('+default_final' if case.get('default_final') else ''),
+          'second_call': case.get('second', 'repeat'),
+          'empty_inputs': case.get('cin_form', 'tuple') + '/' + case.get('shared_form', 'dict'),
+          'leaf_dtypes': '+'.join(sorted({lp.get('dtype', 'f32') for lp in case['prog']['leaves']})),
           'nonfinite_on_padding': any(lp['inv'] for lp in case['prog']['leaves']) or bool(case['prog']['res']['rinv'])}
 
 
@@ -813,7 +901,8 @@ def shrink(case):
       yield {**case, 'clients': cl[:i] + [[c[0], c[1][:-1], c[2]]] + cl[i + 1:]}
   if case['jaxin']:
     yield {**case, 'jaxin': False}
-  if case.get('lazy'):
-    yield {**case, 'lazy': False}
-  if case.get('idkind', 'int') != 'int':
-    yield {**case, 'idkind': 'int'}
+  defaults = {'batches_form': 'list', 'clients_form': 'list', 'idkind': 'int', 'scalar_form': 'array', 'via': 'ctx',
+              'kw': False, 'second': 'repeat', 'order': ['jit', 'debug', 'pmap']}
+  for k, v in defaults.items():
+    if case.get(k, v) != v:
+      yield {**case, k: v}
